@@ -122,7 +122,7 @@ class GeneralInstanceGenerator(InstanceGenerator):
         if num_machines is None:
             min_num_machines, max_num_machines = self.num_machines_range
             if not self.allow_less_jobs_than_machines:
-                min_num_machines = min(num_jobs, max_num_machines)
+                max_num_machines = min(num_jobs, max_num_machines)
             num_machines = random.randint(min_num_machines, max_num_machines)
         elif (
             not self.allow_less_jobs_than_machines and num_jobs < num_machines
